@@ -2,6 +2,7 @@
  *
  * Case lines (same file is read by ml/c15_driver.ml; lines of family x / y belong to c15_cxx.cpp):
  *   <id> c <op> <args> ...     object history; slots 0..5 metatype pointers, 6..8 arrays, 9..11 deferred replies
+ *                              kinds: buf hbuf hcnt huni gen mbuf cfg top reply raw stream iterf itern
  *   <id> r <cop> <args> ...    mpt_refcount_raise / mpt_refcount_lower on a bare counter (set <hex> | raise | lower)
  *
  * Token per operation: <out>|<objects>|<slots>|<events>, last token L<0|1> (LeakSanitizer), see ml/c15_driver.ml.
@@ -25,10 +26,11 @@
 #include "stream/stream_input.c"
 #include "rawdata_create.c"
 #include "rawdata_type_traits.c"   /* top-level mptplot sources are not part of vcheck.LIBS["mptplot"] */
+#include "values/iterator_file.c"
 #include "config.h"
 
-enum { KBUF, KHBUF, KHCNT, KHUNI, KGEN, KMBUF, KCFG, KTOP, KREPLY, KRAW, KSTREAM, KCXX, KNONE };
-static const char *kname[] = { "buf", "hbuf", "hcnt", "huni", "gen", "mbuf", "cfg", "top", "reply", "raw", "stream", "cxx" };
+enum { KBUF, KHBUF, KHCNT, KHUNI, KGEN, KMBUF, KCFG, KTOP, KREPLY, KRAW, KSTREAM, KCXX, KITERF, KITERN, KNONE };
+static const char *kname[] = { "buf", "hbuf", "hcnt", "huni", "gen", "mbuf", "cfg", "top", "reply", "raw", "stream", "cxx", "iterf", "itern" };
 enum { CCOUNTED, CUNIQUE, CSTATIC };
 static int cls_of(int k)
 {
@@ -203,6 +205,7 @@ static uintptr_t *cntp(int o)
 	case KREPLY: return &MPT_baseaddr(reply_context_defer, p, _mt)->ref._val;
 	case KRAW: return &MPT_baseaddr(RawData, p, _mt)->_ref._val;
 	case KSTREAM: return &((MPT_STRUCT(streamInput) *) p)->ref._val;
+	case KITERF: case KITERN: return &((MPT_STRUCT(iteratorFile) *) p)->_ref._val;
 	default: return 0;
 	}
 }
@@ -301,6 +304,14 @@ static MPT_INTERFACE(metatype) *make_meta(int k)
 		if (nstream < 64) stream_peer[nstream++] = sv[1];
 		return (MPT_INTERFACE(metatype) *) in;
 	}
+	case KITERF: {   /* iterator over an open descriptor: no name, clone refuses */
+		int fd = open("/dev/null", O_RDONLY);
+		MPT_INTERFACE(metatype) *m;
+		if (fd < 0) return 0;
+		if (!(m = mpt_iterator_file(fd))) close(fd);
+		return m;
+	}
+	case KITERN: return mpt_iterator_filename("/dev/null");   /* clone opens the file again */
 	default: return 0;
 	}
 }
